@@ -591,7 +591,8 @@ def _stress(ctx, part, info):
                  "scenario_names": [sc["name"] for sc in scenarios], "seed": ctx.seed,
                  "rule": "pipelines composed from the stock node catalogue (shared node instances, several pipelines per type), 2..8 senders through Broker.Send, "
                          "concurrent Broker.Reopen / FileSink.Reopen / rotation by size / encrypt.Filter.Rotate (API and in-band) / cloudevents Rotate / gated FlushAll, "
-                         "built with -race, one process per scenario; distinct_nontrivial = distinct scenarios (composition x controls) in which events reached a sink"})
+                         "built with -race, one process per scenario; output oracles: every sink's output is a sequence of whole JSON documents, no interleaved Write on a sink's writer, "
+                         "a sink fed only through an encrypt.Filter never shows a protected canary (and the plain pipeline's sink does), two FileSinks on one file hold every acknowledged event exactly once; distinct_nontrivial = distinct scenarios (composition x controls) in which events reached a sink"})
     _report_hangs(ctx, "C19", "stressh", hangs, "a composition of stock nodes under concurrent Sends and control calls did not finish within the watchdog")
     for sc, rc, o in crashed:
         rp = V.write_replay(ctx, "stress-crash-" + sc["name"], {"kind": "correspondence", "engine": "stressh", "case": sc, "exit_code": rc, "output": o})
@@ -599,13 +600,17 @@ def _stress(ctx, part, info):
     seen_classes = set()
     ctx._integrity = integrity
     for sc, x in integrity:
-        cls = "concurrent-writes-on-a-sink's-writer" if "concurrent Write" in x else "sink-output-not-a-sequence-of-JSON-documents"
+        cls = ("concurrent-writes-on-a-sink's-writer" if "concurrent Write" in x else
+               "protected-plaintext-in-a-sink-behind-encrypt" if "protected field" in x or "redaction marker" in x else
+               "plain-sink-does-not-show-its-pipeline's-view" if "does not show the plaintext" in x else
+               "file-sinks-on-one-file-lose-or-duplicate-events" if "acknowledged events" in x else
+               "sink-output-not-a-sequence-of-JSON-documents")
         if cls in seen_classes:
             continue
         seen_classes.add(cls)
         rp = V.write_replay(ctx, "integrity-" + cls, {"kind": "correspondence", "engine": "stressh", "case": sc, "observed_value": x,
-                                                       "scenarios_affected": sorted(set(s2["name"] for s2, y in integrity))})
-        ctx.violations.append({"match": "integrity:" + cls, "replay": rp, "what": "corrupted sink output (%d scenarios): %s" % (len(set(s2["name"] for s2, y in integrity)), x)})
+                                                       "scenarios_affected": sorted(set(s2["name"] for s2, y in integrity)), "repro": "bin/check replay <this file>"})
+        ctx.violations.append({"match": "integrity:" + cls, "replay": rp, "what": "corrupted sink output: " + x})
     for sc, x in panics[:5]:
         rp = V.write_replay(ctx, "panic-" + sc["name"], {"kind": "correspondence", "engine": "stressh", "case": sc, "observed_value": x})
         ctx.violations.append({"match": "panic:" + x[:60], "replay": rp, "what": "panic under concurrent use: " + x})
